@@ -382,7 +382,7 @@ func (p *Program) RunHarnessOn(opt *Options, pool *Pool) *HarnessResult {
 	if v, err := strconv.Atoi(opt.Params["timeBudget"]); err == nil && v > 0 {
 		budget = time.Duration(v) * time.Second
 	}
-	started := time.Now()
+	var started time.Time // set when the instance's first path starts to run, not when it is queued
 	timedOut := false
 	var mu sync.Mutex
 	done := make(chan struct{})
@@ -391,6 +391,11 @@ func (p *Program) RunHarnessOn(opt *Options, pool *Pool) *HarnessResult {
 	var run func(prefix []Dec) func(*Solver)
 	run = func(prefix []Dec) func(*Solver) {
 		return func(s *Solver) {
+			mu.Lock()
+			if started.IsZero() {
+				started = time.Now()
+			}
+			mu.Unlock()
 			res, forks := p.runPath(opt, s, fn, prefix)
 			mu.Lock()
 			hr.Paths++
